@@ -23,7 +23,7 @@ CFG = {
             "{0,1}^2 versions x 2 OS (8 kinds) x all 64 queries; thorough adds 5-6 artifacts over the 4 versions. Sampled 4k/60k: <= 8 "
             "artifacts, 3x3 version grid / 4 integers, metadata None/0/1 with metadata requirements. F 1.5k/20k: TOML render + parse of "
             "inventories with awkward urls and checksum names. K: 11 prefixes x every body over {0,a,F,g} of length <= 5 (6 thorough) against "
-            "the 2-byte digest; 6k/60k sampled strings around 64 digits for a 32-byte digest, the unconstrained digest `()`, mixed case, one "
+            "the 2-byte digest; every body over {0,a,F,g,+,-,' ',x} of length <= 4 (5 thorough) after 'd2:'; one or two special characters (+ - blank tab _ x X g G NUL . : and 2-/3-byte characters e-acute, check mark, full-width zero) at every position (even and odd offsets) of bodies of 1..5 slots, and inserted at / replacing every position of the algorithm name, for the 2-byte and the unconstrained digest; a valid 64-digit string with each special at every offset (byte length kept) and '+a' x 32 for the 32-byte digest; 6k/60k sampled strings around 64 digits for a 32-byte digest, the unconstrained digest `()`, mixed case, one "
             "bad character, missing colon. non-trivial: T/P = two artifacts share OS and arch (some query has several candidates); "
             "F = at least one artifact; K = the string holds a colon; distinct = distinct input line",
     "exhaustive": True,
